@@ -97,8 +97,8 @@ func runC18(c *core.Ctx) {
 			return
 		}
 		sendT := epoch.Add(time.Duration(c.Now))
-		if sendT.Unix() >= eraEndUnix-1 {
-			return // the send instant itself must lie inside the NTP era; the receive instant may lie beyond it
+		if !sendT.Before(time.Unix(eraEndUnix, 0).Add(-time.Duration(tick))) {
+			return // the send instant itself must lie inside the NTP era (one tick clear of its end); the receive instant may lie beyond it
 		}
 		ntpSec := sendT.Unix() + 2208988800
 		toBoundary := (64-ntpSec%64)*1_000_000_000 - int64(sendT.Nanosecond()) // ns until the next 64 s boundary (1..64e9)
@@ -115,6 +115,9 @@ func runC18(c *core.Ctx) {
 			d = tick * int64(1+t.Intn(2))
 		case 3:
 			d = wrap - tick*int64(2+t.Intn(3))
+			if t.Bool() {
+				d = wrap - tick - 8 - int64(t.Intn(int(3*tick))) // every nanosecond of the last ticks below the bound (8 ns clear of it)
+			}
 			c.Probe("delay-just-below-64s")
 		case 4:
 			d = toBoundary + int64(t.Range(-2, 2))*tick
